@@ -1,7 +1,7 @@
 #!/usr/bin/env python3
 """Developer tool: register every replay file of a property that is not yet listed in known_findings.json as an
 OPEN finding (after the failure has been confirmed to be a genuine defect).  kf_bulk.py <ID> [key-prefix]"""
-import glob, json, os, sys
+import fnmatch, glob, json, os, sys
 here = os.path.dirname(os.path.dirname(os.path.abspath(__file__)))
 prop = sys.argv[1]
 prefix = sys.argv[2] if len(sys.argv) > 2 else ''
@@ -12,7 +12,7 @@ added = 0
 for replay in sorted(glob.glob(os.path.join(here, 'replays', prop, '*.json'))):
     r = json.load(open(replay))
     key = r['key']
-    if (prop, key) in have or not key.startswith(prefix):
+    if any(p == prop and (k == key or fnmatch.fnmatchcase(key, k)) for p, k in have) or not key.startswith(prefix):
         continue
     d = r.get('detail') or {}
     what = '%s: %s' % (key, json.dumps(d, sort_keys=True)[:260])
